@@ -76,6 +76,14 @@ theorem T15_9_deadlock_free_with_rt_counter (db0 : Db C R D) (evs : List (Event3
 theorem T15_9c_blocked_step (v : Variant) (s : S3 C R W D) (t : Tid) (hb : blocked3 s t = true) :
     next3 ops v s (.l2 (.step t)) = (s, .blocked) := blocked3_step ops v s t hb
 
+/-- T15.9d moving is real (either variant): a queued rt micro-step always runs (and shortens the queue); a thread inside a
+call with nothing queued that is not blocked performs its lock micro-step. -/
+theorem T15_9d_mover_moves (v : Variant) (s : S3 C R W D) (t : Tid) :
+    (s.pend t ≠ [] → (next3 ops v s (.rt t)).2 = .ran ∧ ((next3 ops v s (.rt t)).1.pend t).length + 1 = (s.pend t).length) ∧
+    (∀ i rest, s.pend t = [] → (s.l2.thr t).prog = i :: rest → blocked3 s t = false →
+      (next3 ops v s (.l2 (.step t))).2 ≠ .blocked) :=
+  ⟨rt_step_runs ops v s t, fun i rest hpe hp hb => unblocked3_step ops v s t i rest hpe hp hb⟩
+
 /-- T15.order-6 **`Nomt::begin_session`: read guard, THEN the delta builder, THEN the updater** — the sequence of lock and
 rt micro-steps the LTS makes a thread perform for `begin_session` (plain and on overlays), in the vocabulary of the
 step-order translator, EQUALS the list read off the current Rust text (`Generated/StepOrder.lean`,
@@ -83,6 +91,16 @@ step-order translator, EQUALS the list read off the current Rust text (`Generate
 theorem T15_order_begin_session (sid : Nat) (b : R) :
     orderRt (microSeq .code (.beginSession sid : Call R W D)) 0 = sessOrderS nomt_begin_session ∧
     orderRt (microSeq .code (.beginSessionOv sid b : Call R W D)) 0 = sessOrderS nomt_begin_session := ⟨rfl, rfl⟩
+
+/-- T15.order-7 **drop of a `Session`: the read transactions go BEFORE the read guard** — the LTS's `endSession` (and
+`finishSession`) performs `rtDrop` before `aReadUnlock`, and the step `aReadUnlock` removes whatever the session still
+holds (`rtOnStep`); in the source this is the declaration order of the fields of `struct Session` (Rust drops fields in
+declaration order): `merkle_updater`, `rollback_delta` before `access_guard`, read off the current text. -/
+theorem T15_order_session_drop (sid : Nat) :
+    dropOrder (microSeq .code (.endSession sid : Call R W D)) = names session_fields ∧
+    dropOrder (microSeq .code (.finishSession sid : Call R W D)) = names session_fields := ⟨rfl, rfl⟩
+
+example : names session_fields = [.field_updater, .field_delta, .field_guard] := by decide
 
 /-- what the two sides are -/
 example : sessOrderS nomt_begin_session = [.guard_read, .delta_builder, .updater_begin] := by decide
